@@ -6,6 +6,7 @@ import common
 from common import Verdict, InfraError
 from pure_checks import gen_cases
 from tla import run_tlc
+from storelib import KEYS as KEYS_, CLUSTER_KEYS as CLUSTER_KEYS_, STREAM as STREAM_
 
 GAP = ("far_future", "ancient_ts")
 
@@ -334,6 +335,66 @@ def check_C16(args):
                             rp = common.save_replay(pid, "stall-%s-%d" % (sc["scn"], sid), {"scenario": {"scn": "replay", "steps": [s for s in sc["steps"] if s["id"] <= sid]}, "result": res})
                             V.violation(rp, "%s: after the inputs before step %d only %s of %d valid points are ingested (the pipeline stalled or dropped them); the last inputs were %s"
                                         % (sc["scn"], sid, res["got"], res["expected"], prev[-3:]))
+        # "... and replicated": odd payloads through the leader of an in-process cluster,
+        # valid points after them; the partitions together must hold what a standalone
+        # database fed the same points holds
+        n_cluster = 0
+        if not args.replay:
+            from cluster_checks import cluster_tables
+            from store_checks import rows_to_cells, diff_cells
+            cbin = common.build(("zvcluster",))["zvcluster"]
+            odd = [({"a": None, "b": "y"}, {"w": 1}), ({"b": True}, {"w": 1}), ({"a": "x", "b": None}, {"w": 1}),
+                   ({"a": 1.5, "b": {"$": "time", "v": 3}}, {"w": 1}), ({"a": {"$": "u8", "v": 7}, "b": "y"}, {"w": "str"}),
+                   ({"a": 1, "b": "y"}, {"w": None}), ({"a": 1, "b": "y"}, {"w": True}), ({"b": {"$": "floats", "v": [1, 2]}}, {"w": 1}),
+                   ({"a": {"$": "ints", "v": [1]}, "b": "y"}, {"w": {"$": "ints", "v": []}}), ({}, {"w": 1}), ({"a": 1}, {}),
+                   ({"a": {"$": "f32", "v": 1.5}, "b": ""}, {"w": {"$": "floats", "v": [1, 2, 3]}}), ({"a": {"$": "i64", "v": -1}, "b": "y"}, {"x": 1, "w": ""})]
+            csc = []
+            for ci in range(2 if quick else 8):
+                tabs = cluster_tables(variant=ci % 6)
+                P = rng.choice([2, 3])
+                cmds = [{"a": "Connect", "f": "f%d_0" % p, "l": 0} for p in range(P)]
+                pts = list(odd)
+                rng.shuffle(pts)
+                for i, (d, v) in enumerate(pts):
+                    cmds.append({"a": "Insert", "l": 0, "ts": rng.randint(1, 4), "dims": d, "vals": v})
+                    if i % 3 == 2:
+                        k = rng.choice(CLUSTER_KEYS_)
+                        cmds.append({"a": "Insert", "l": 0, "ts": rng.randint(1, 4), "dims": KEYS_[k], "vals": {"w": 4 ** (i // 3), "x": 4 ** (i // 3)}})
+                cmds.append({"a": "Settle", "id": "s0"})
+                csc.append({"scn": "rc%d" % ci, "opts": {"tickMs": 1000, "stream": STREAM_}, "tables": [t.define() for t in tabs],
+                            "topo": {"leaders": 1, "partitions": P, "replicas": 1}, "cmds": cmds})
+            ctr = common.run_shards(cbin, csc, os.path.join(work, "runc"), nproc=len(csc), timeout=900)
+            for sc_ in csc:
+                lines = ctr.get(sc_["scn"], [])
+                crash = [l for l in lines if l["a"] == "ProcessCrash"]
+                herr = [l for l in lines if l["a"] == "HarnessError"]
+                n_cluster += 1
+                if crash and crash[0]["in_database_code"]:
+                    rp = common.save_replay(pid, sc_["scn"] + "-crash", {"cluster": sc_, "panic": crash[0]})
+                    V.violation(rp, "%s: the cluster process crashed while odd payloads were replicated: panic: %s" % (sc_["scn"], crash[0]["panic"]))
+                    continue
+                if herr and "quiescence" in herr[0].get("err", ""):
+                    rp = common.save_replay(pid, sc_["scn"] + "-stall", {"cluster": sc_, "error": herr[0]})
+                    V.violation(rp, "%s: after odd payloads went through the leader the followers no longer catch up (%s)" % (sc_["scn"], herr[0]["err"]))
+                    continue
+                if herr or crash:
+                    raise InfraError("zvcluster: %s" % (herr or crash)[0])
+                views = {}
+                for l in lines:
+                    if l["a"] == "View" and l["at"] == "s0":
+                        views.setdefault(l["t"], {})[l["node"]] = rows_to_cells(l["rows"])
+                for tn, nodes in views.items():
+                    total = {}
+                    for node, cells in nodes.items():
+                        if node != "standalone":
+                            for k, c in cells.items():
+                                total[k] = total.get(k, 0) + c
+                    d = diff_cells(total, nodes.get("standalone", {}))
+                    if d:
+                        k = sorted(d, key=repr)[0]
+                        rp = common.save_replay(pid, sc_["scn"] + "-" + tn, {"cluster": sc_, "diff": [[list(x), d[x]] for x in sorted(d, key=repr)][:10]})
+                        V.violation(rp, "%s: after odd payloads the partitions of table %s together differ from the standalone database, e.g. %s cluster/standalone %s"
+                                    % (sc_["scn"], tn, list(k), d[k]))
         if n_sql + n_pay == 0:
             raise InfraError("zvrobust produced no results")
         cov = {"evaluations": n_sql + n_pay, "distinct_nontrivial": len(kinds_seen),
@@ -342,14 +403,14 @@ def check_C16(args):
                        "http / rpc), each rendered in several concrete variants; distinct = distinct abstract inputs submitted; every SQL string goes to "
                        "sql.Parse, DB.Query + Iterate and the rpc query endpoint",
                "samples": [describe(st) for st in scenarios[0]["steps"] if st["op"] in ("sql", "payload")][:6],
-               "sql_inputs": n_sql, "payload_inputs": n_pay, "valid_points": n_valid, "probes": n_probe, "outcomes": outcomes,
+               "sql_inputs": n_sql, "payload_inputs": n_pay, "valid_points": n_valid, "probes": n_probe, "outcomes": outcomes, "cluster_scenarios_with_odd_payloads": n_cluster,
                "states": states, "transitions": trans, "generated": counts, "exhaustive": False}
         rc = V.finish()
         common.write_evidence(pid, "exploration", cov,
                               ["structural classes of malformed input only (the grammar of spec/Robust.tla and its renderer); no byte-level fuzzing",
                                "functions that need external services (redis, geo, isp databases) are exercised only with wrong arities / argument kinds",
                                "a panic in a goroutine of the database ends the harness process; the input announced last is blamed",
-                               "replication of the valid points is covered by C12; here the standalone pipeline is probed"], time.time() - t0, len(V.violations))
+                               "replication: odd payloads and valid points through the leader of an in-process cluster (harness links), partitions compared with a standalone database"], time.time() - t0, len(V.violations))
         return rc
     finally:
         shutil.rmtree(work, ignore_errors=True)
